@@ -1221,3 +1221,40 @@ mod tests {
         assert_eq!(w, g.0)
     }
 }
+
+// Verification hooks: compiled only with `--cfg john_yu_sm9_core_verif`; add-only, no effect on
+// normal builds. Re-exports of the internal tower types and conversions from/to the public types.
+#[cfg(john_yu_sm9_core_verif)]
+pub mod verif_hooks {
+    pub use crate::fields::{FieldElement, Fq12, Fq4};
+    pub use crate::pairings::verif::*;
+    pub type InnerFq = crate::fields::Fq;
+    pub type InnerFq2 = crate::fields::Fq2;
+    pub type InnerG1 = crate::groups::G1;
+    pub type InnerG2 = crate::groups::G2;
+
+    pub fn fq_in(x: crate::Fq) -> InnerFq {
+        x.0
+    }
+    pub fn fq_out(x: InnerFq) -> crate::Fq {
+        crate::Fq(x)
+    }
+    pub fn fq2_in(x: crate::Fq2) -> InnerFq2 {
+        x.0
+    }
+    pub fn fq2_out(x: InnerFq2) -> crate::Fq2 {
+        crate::Fq2(x)
+    }
+    pub fn g1_in(x: crate::G1) -> InnerG1 {
+        x.0
+    }
+    pub fn g2_in(x: crate::G2) -> InnerG2 {
+        x.0
+    }
+    pub fn gt_in(x: crate::Gt) -> Fq12 {
+        x.0
+    }
+    pub fn gt_out(x: Fq12) -> crate::Gt {
+        crate::Gt(x)
+    }
+}
